@@ -777,8 +777,10 @@ impl WalReader {
         };
 
         const MAX_WAL_RECORD_LEN: u32 = 1024 * 1024; // 1MB
-        if len > MAX_WAL_RECORD_LEN {
-            return Err(Error::WalRecordTooLarge(len));
+        // A zero or absurd length is what a crash leaves behind (zero-filled space, garbage);
+        // like a short read or a CRC mismatch it marks the end of the log, not an error.
+        if len == 0 || len > MAX_WAL_RECORD_LEN {
+            return Ok(None);
         }
 
         let Some(crc) = self.try_read_u32()? else {
